@@ -1,5 +1,5 @@
 (* C19 — reported inflation equals the actual annualised emission rate. *)
-From C4E Require Import Base Minter MinterProofs.
+From C4E Require Import Base Minter MinterProofs MinterRate.
 Open Scope Z_scope.
 
 (* zero before the period's start, for no-minting periods, and for an exponential period whose end
@@ -33,6 +33,34 @@ Theorem C19_linear_rate_brackets_emission :
   y * supply * (e - start) <= A * P * YEAR < (y * supply + supply) * (e - start) + (e - start).
 Proof. exact linear_rate_brackets. Qed.
 Print Assumptions C19_linear_rate_brackets_emission.
+
+(* the numeric statement, linear period: for millisecond-aligned instants start <= t1 <= t2 <= end of a
+   millisecond-aligned period, the emission over (t1, t2] (in 10^-18 units) and rate * supply * (t2 - t1) / year
+   differ by less than one unit plus (supply + 1) * (t2 - t1) / year units — the resolution of the
+   18-digit rate times the supply *)
+Theorem C19_linear_emission_matches_rate :
+  forall A ms me m1 m2 S,
+  0 <= A -> 0 < S -> ms <= m1 <= m2 -> m2 <= me -> ms < me -> (me - ms) * MS <= MAXI64 ->
+  let start := ms * MS in let e := me * MS in let t1 := m1 * MS in let t2 := m2 * MS in
+  exists a1 a2 y,
+    linear_amount A start e t1 = Ok a1 /\ linear_amount A start e t2 = Ok a2 /\
+    calc_inflation {| m_seq := 1; m_end := Some e; m_cfg := CLinear A |} S start t1 = Ok y /\
+    - YEAR < (a2 - a1) * YEAR - y * S * (t2 - t1) < YEAR + (S + 1) * (t2 - t1).
+Proof. exact linear_emission_matches_rate. Qed.
+Print Assumptions C19_linear_emission_matches_rate.
+
+(* ... and inside one step of an exponential period, before its end, for any instants *)
+Theorem C19_exponential_emission_matches_rate :
+  forall A step mult start end_ t1 t2 S,
+  0 <= A -> 0 <= mult -> 0 < S -> 0 < step -> start <= t1 <= t2 -> t2 - start <= MAXI64 ->
+  (t1 - start) / step = (t2 - start) / step ->
+  match end_ with Some e => t2 < e | None => True end ->
+  exists a1 a2 y,
+    exp_amount A step mult start end_ t1 = Ok a1 /\ exp_amount A step mult start end_ t2 = Ok a2 /\
+    calc_inflation {| m_seq := 1; m_end := end_; m_cfg := CExp A step mult |} S start t1 = Ok y /\
+    - YEAR < (a2 - a1) * YEAR - y * S * (t2 - t1) < YEAR + (S + 1) * (t2 - t1).
+Proof. exact exp_emission_matches_rate. Qed.
+Print Assumptions C19_exponential_emission_matches_rate.
 
 (* exponential-step period: the rate is the current step's epoch amount (the very amount AmountToMint
    spreads over the step — same recurrence) annualised, over the supply *)
